@@ -24,6 +24,14 @@ theorem constants_are_spec :
     Facts.C08.nanoPerSec = 1000000000 ∧ Facts.C08.idShift = 32 ∧ Facts.C08.seqFactor = 2 ∧
     Facts.C08.maskStmt = "fracPart &= -messageIDModulo" := by decide
 
+/-- `proto.newMessageID` as translated from the Go source on this run (`Facts.C08.newMessageIDT`,
+over `Int`, Go's truncating `/ %`, `&= -4`, `<< 32 |`) is the hand-written model, for every
+non-negative time and every yield. -/
+theorem newMessageID_translated_eq_model (nowNano yield : Int) (h0 : 0 ≤ nowNano) (h1 : 0 ≤ yield) :
+    Facts.C08.newMessageIDT nowNano yield = (newMessageID nowNano.toNat yield.toNat : Int) := by
+  have := newMessageIDT_eq nowNano.toNat yield.toNat
+  rwa [Int.toNat_of_nonneg h0, Int.toNat_of_nonneg h1] at this
+
 /-- The modelled `MessageIDGen.New` is the one in the source: the clock reading is adopted only if
 it raises the time *with the two id-irrelevant bits cleared*; otherwise the stored time is bumped. -/
 theorem gen_new_is_modelled :
